@@ -54,6 +54,9 @@ structure Cfg where
   /-- does `a = std::move(b)` compile for a non-pixel element with a non-propagating allocator?  (known finding:
       the view constructor used by move_assign since 55a8c0c is constrained on pixels_are_compatible) -/
   elemMoveCompiles : Bool := false
+  /-- source-selected variant of allocate_: when no byte is needed (w x 0 / 0 x h image), does it still build a view of the requested
+      dimensions (proposed_fixes/C10-degenerate-image-dimensions.diff), or return before touching _view (image reports 0x0)? -/
+  keepDims : Bool := false
   deriving Repr
 
 def Cfg.tagOf (c : Cfg) (t : Nat) : Nat := if c.empty then 0 else if c.ntags = 0 then t else t % c.ntags
@@ -185,8 +188,13 @@ def pCtor (c : Cfg) (o : Org) (w : World) (s : Nat) (img0 : Img) (W H : Nat) (co
   let n := o.needed img0.align W H
   let img0 := { img0 with allocated := n }
   if n = 0 then
+    if c.keepDims then
+      -- allocate_ builds create_view(dimensions) over the null _memory; the element construction runs over that (empty) view
+      match w.construct o none (W * H) with
+      | (w, true) => (w.setImg s (some { Img.withView o img0 W H with pix := content }), .ok)
+      | (w, false) => (w, .ctorThrow)
     -- allocate_ returns before touching _view: the image is 0x0 whatever was asked for
-    if src.isSome ∧ src ≠ some (0, 0) ∧ !c.ndebug then (w, .assertFail "view1.dimensions()==view2.dimensions()")
+    else if src.isSome ∧ src ≠ some (0, 0) ∧ !c.ndebug then (w, .assertFail "view1.dimensions()==view2.dimensions()")
     else (w.setImg s (some img0), .ok)
   else
     match w.alloc img0.tag n with
